@@ -242,6 +242,9 @@ func cutEdge(ifi *ssa.If, succ int) an.EdgeCut {
 
 // onlyViaEdge: site reachable from entry only through the given edge of ifi.
 func (q *fq) onlyViaEdge(site ssa.Instruction, ifi *ssa.If, succ int) bool {
+	if ifi == nil || site == nil {
+		return false // the deciding branch was not found: not established
+	}
 	return !q.c.P.PathExists(q.fn, nil, an.Is(site), nil, cutEdge(ifi, succ))
 }
 
